@@ -506,6 +506,9 @@ def build(ctx, th):
             sampler=vec0_sampler(4, tq), note='Quaternion.unit() against the same model')
     g.model('m_qunit_UnitQuaternion', V4i, 'O:V4', coq='m_qunit', module=None, num_fn=opt(lambda q: UnitQuaternion([float(x) for x in q]).vec),
             sampler=vec0_sampler(4, tq), note='UnitQuaternion(4-element list) constructor against the same model')
+    g.model('m_qunit_UnitQuaternion_Nx4', V4i, 'O:V4', coq='m_qunit', module=None,
+            num_fn=opt(lambda q: UnitQuaternion(np.vstack([np.asarray(q, float), [0.0, 3.0, 0.0, 4.0]])).data[0]),
+            sampler=vec0_sampler(4, tq), note='UnitQuaternion(N x 4 array) constructor (row 0 of 2) against the same model')
     g.model('m_trnorm33', [('R', 'M33')], 'O:M33', coq='m_trnorm33', module=None, num_fn=base.trnorm, sampler=mat_sampler(3))
     g.model('m_trnorm44', [('A', 'M44')], 'O:M44', coq='m_trnorm44', module=None, num_fn=base.trnorm, sampler=mat_sampler(4))
     g.model('m_trnorm33_SO3_norm', [('R', 'M33')], 'O:M33', coq='m_trnorm33', module=None,
@@ -634,10 +637,13 @@ class Oracle:
         rng = self.rng
         uq1 = lambda q: UnitQuaternion([float(x) for x in q]).vec
         uq3 = lambda q: UnitQuaternion(np.asarray(q, float)).vec
+        # N x 4 array form: every row is normalised; the observed row is the first of two
+        uq4 = lambda q: np.asarray(UnitQuaternion(np.vstack([np.asarray(q, float), np.asarray(q, float)[::-1]])).data[0], float)
         uq2 = lambda q: UnitQuaternion(float(q[0]), q[1:]).vec
         sites = [('unitvec', 3, base.unitvec), ('unitvec_norm', 3, lambda v: base.unitvec_norm(v)[0]),
                  ('qunit', 4, base.unit), ('Quaternion.unit', 4, lambda q: Quaternion(q).unit().vec),
-                 ('UnitQuaternion(list)', 4, uq1), ('UnitQuaternion(s,v)', 4, uq2), ('UnitQuaternion(ndarray)', 4, uq3)]
+                 ('UnitQuaternion(list)', 4, uq1), ('UnitQuaternion(s,v)', 4, uq2), ('UnitQuaternion(ndarray)', 4, uq3),
+                 ('UnitQuaternion(Nx4)', 4, uq4)]
         norms = [1e-6, 1e6, 1.0, 1 + 1e-15, 1 - 1e-15, 1 + 1e-2, 1 - 1e-2]
         for i in range(N):
             for site, n, f in sites:
@@ -676,14 +682,15 @@ class Oracle:
         A = rng.normal(size=(3, 4)) * 3
         try:
             u = UnitQuaternion(A)
-            good = len(u) == 3 and all(np.shape(x) == (4,) and abs(np.linalg.norm(x) - 1) < TOL for x in u.data)
+            good = len(u) == 3 and all(np.shape(x) == (4,) and abs(np.linalg.norm(x) - 1) < TOL and
+                                       np.max(np.abs(np.asarray(x, float) - r / np.linalg.norm(r))) < TOL for x, r in zip(u.data, A))
             if not good:
                 self.ctx.count('oracle:valid:UnitQuaternion(Nx4)')
-                self.ctx.fail('oracle:valid:UnitQuaternion(Nx4):stores-norms',
+                self.ctx.fail('oracle:valid:UnitQuaternion(Nx4):rows-not-normalised',
                               f"UnitQuaternion(ndarray N x 4) does not hold unit quaternions: data = {u.data!r}"[:400],
                               dict(site='UnitQuaternion(Nx4)', inputs_hex=hx(A), data=repr(u.data)[:400]))
             else:
-                self.ok('valid', 'UnitQuaternion(Nx4)', 'nonzero', 0.0, TOL, A)
+                self.ok('valid', 'UnitQuaternion(Nx4)', 'all-rows', 0.0, TOL, A)
         except Exception as ex:
             self.raised('UnitQuaternion(Nx4)', ex, A)
 
